@@ -143,9 +143,11 @@ vharness! {
 // ------------------------------------------------------------ C16: reset between iterations
 
 vharness! {
-    /// @prop C16 @tier quick @mode fast @cost 3 @timeout 3600 @funcs Execution::step,Path::step,Store::clear,Set::clear,lazy_static::Set::reset @bounds execution dirtied with 3 threads (symbolic clocks and states), a symbolic SC-fence view, one object, one decision with an unexplored alternative
+    /// @prop C16 @tier thorough @mode fast @cost 3 @timeout 3600 @funcs Execution::step,Path::step,Store::clear,Set::clear,lazy_static::Set::reset @bounds execution dirtied with 3 threads (symbolic clocks and states), a symbolic SC-fence view, one object, one decision with an unexplored alternative; Vec::clear / Vec::truncate stubbed to skip destructors
     /// Execution::step hands the next iteration the initial state: one main thread, zero clocks, zero SC-fence view, empty object store and registries, cursor at the start of the retained path, a fresh execution id; configuration (max_threads, location, log) is preserved.
     #[cfg_attr(kani, kani::unwind(8))]
+    #[cfg_attr(kani, kani::stub(std::vec::Vec::clear, crate::rt::verif::stubs::vec_clear_no_drop))]
+    #[cfg_attr(kani, kani::stub(std::vec::Vec::truncate, crate::rt::verif::stubs::vec_truncate_no_drop))]
     fn execution_step_resets() {
         let mut e = mk_exec(3, 2, None);
         tv::havoc_clocks(&mut e.threads, 3);
@@ -176,17 +178,17 @@ vharness! {
         assert!(tv::len(&n.threads) == 1);
         assert!(tv::active_index(&n.threads) == Some(0));
         let zero = [0u16; MAX_THREADS];
-        assert!(vv_raw(&n.threads.seq_cst_causality) == zero);
+        assert!(le(&vv_raw(&n.threads.seq_cst_causality), &zero));
         let th = tv::th_ref(&n.threads, 0);
         assert!(tv::state_code(&th.state) == 0);
-        assert!(vv_raw(&th.causality) == zero && vv_raw(&th.released) == zero && vv_raw(&th.dpor_vv) == zero);
+        assert!(le(&vv_raw(&th.causality), &zero) && le(&vv_raw(&th.released), &zero) && le(&vv_raw(&th.dpor_vv), &zero));
         assert!(th.last_yield.is_none() && th.yield_count == 0 && th.operation.is_none());
         assert!(n.objects.len() == 0);
         assert!(n.raw_allocations.is_empty() && n.arc_objs.is_empty());
         assert!(n.path.pos() == 0);
         assert!(n.max_threads == 3 && n.max_history == 7);
         assert!(n.location == loc && n.log == log);
-        kani::cover!(sc != zero, "SC-fence view was advanced in the previous iteration");
+        kani::cover!(!le(&sc, &zero), "SC-fence view was advanced in the previous iteration");
         std::mem::forget(n);
     }
 }
